@@ -109,3 +109,44 @@ func ParamMatrix() *m.Design {
 		Services: []*m.Service{{Name: "matrix", HasHTTP: true, Methods: []*m.Method{meth, typed, cookies, optcookie, headers, queries}}},
 		Features: []string{"fixed-design:param-matrix", "cookie", "renamed-cookie", "response-cookie", "response-header", "required-default-optional-matrix", "typed-params"}}
 }
+
+// ViewMatrix is a fixed design that crosses, inside the views of one result
+// type, sibling attributes of the same nested result type with every way of
+// choosing the nested view (no override, each named view), in several
+// orders, directly and through an array.
+func ViewMatrix() *m.Design {
+	str := func() *m.Attr { return m.Prim(m.String) }
+	obj := func(fs ...*m.Field) *m.Attr { return &m.Attr{Type: &m.Type{Kind: m.Object, Fields: fs}} }
+	fld := func(n string, a *m.Attr, req bool) *m.Field { return &m.Field{Name: n, Attr: a, Required: req} }
+	vf := func(pairs ...string) []m.ViewField {
+		var out []m.ViewField
+		for i := 0; i+1 < len(pairs); i += 2 {
+			out = append(out, m.ViewField{Name: pairs[i], View: pairs[i+1]})
+		}
+		return out
+	}
+	leaf := &m.UserType{Name: "Leaf", Var: "vleaf", Result: true, Identifier: "application/vnd.matrix.leaf",
+		Attr: obj(fld("a", m.Prim(m.Int), true), fld("b", str(), false), fld("c", str(), false)),
+		Views: []*m.View{
+			{Name: "default", Fields: vf("a", "", "b", "", "c", "")},
+			{Name: "tiny", Fields: vf("a", "")},
+			{Name: "extended", Fields: vf("a", "", "b", "")},
+		}}
+	arr := func(e *m.Attr) *m.Attr { return &m.Attr{Type: &m.Type{Kind: m.Array, Elem: e}} }
+	tree := &m.UserType{Name: "Tree", Var: "vtree", Result: true, Identifier: "application/vnd.matrix.tree",
+		Attr: obj(fld("title", str(), true), fld("l1", m.UserRef("Leaf"), false), fld("l2", m.UserRef("Leaf"), false), fld("l3", m.UserRef("Leaf"), false), fld("many", arr(m.UserRef("Leaf")), false)),
+		Views: []*m.View{
+			{Name: "default", Fields: vf("title", "", "l1", "", "l2", "tiny", "l3", "extended", "many", "")},
+			{Name: "alt", Fields: vf("title", "", "l1", "tiny", "l2", "", "l3", "tiny", "many", "tiny")},
+			{Name: "rev", Fields: vf("l3", "extended", "title", "", "l1", "", "l2", "tiny")},
+			{Name: "one", Fields: vf("title", "", "l2", "extended")},
+		}}
+	trees := &m.UserType{Name: "TreeCollection", Var: "vtrees", Result: true, CollectionOf: "Tree"}
+	get := func(name, view string, t string) *m.Method {
+		return &m.Method{Name: name, Result: m.UserRef(t), ResultView: view, HTTP: &m.HTTPEndpoint{Routes: []m.Route{{Verb: "GET", Path: "/" + name}}}}
+	}
+	return &m.Design{API: m.API{Name: "viewmatrix", Title: "View matrix"},
+		Types:    []*m.UserType{leaf, tree, trees},
+		Services: []*m.Service{{Name: "viewmatrix", HasHTTP: true, Methods: []*m.Method{get("get", "", "Tree"), get("getalt", "alt", "Tree"), get("getrev", "rev", "Tree"), get("list", "", "TreeCollection")}}},
+		Features: []string{"fixed-design:view-matrix", "result-type", "views", "nested-view-override", "sibling-nested-views", "collection"}}
+}
